@@ -136,6 +136,21 @@ def search (lt le : α → α → Bool) (d : α) (bins : List α) (val : α) : I
 
 end generic
 
+/-- how `_run_numpy_bin` re-binds an operand before the search: not at all / `np.asarray(x)` (`none`),
+    to a fixed dtype (`np.asarray(x, dtype=np.float32)`, `x.astype('float32')`), to the raster's dtype
+    (`dtype=data.dtype`), or by an expression the fact extractor does not understand -/
+inductive Cast where
+  | none | dtype (name : String) | dataDtype | other (src : String)
+  deriving DecidableEq, Repr, Inhabited
+
+structure BinCasts where
+  data : Cast
+  bins : Cast
+  newValues : Cast
+  /-- apart from those re-bindings the function is `return _cpu_bin(data, bins, new_values)` -/
+  callOk : Bool
+  deriving DecidableEq, Repr, Inhabited
+
 /-! ### extended values: what a raster cell / a bin can hold -/
 
 inductive Ext (α : Type) where
@@ -189,6 +204,26 @@ def cell (bins newv : List (Ext α)) (v : Ext α) : Ext α :=
     let r := search Ext.lt Ext.le .nan bins v
     if r > -1 then getW .nan newv r else .nan
   else .nan
+
+/-! #### `_run_numpy_bin`: what happens to the operands before `_cpu_bin` compares them.
+    `_cpu_bin` compares `val` with `bins[i]` as they arrive (numba converts both to their common type, which
+    holds every float32 / float64 / int32 value and every int64 up to 2^53 exactly), so the comparison is the
+    comparison of the numbers themselves *unless the wrapper has rounded an operand first*.  The wrapper's
+    re-bindings are read from the source (Gen/ClassifyFacts.lean: `runBinCasts`). -/
+
+omit [LT α] [DecidableLT α] [LE α] [DecidableLE α] in
+/-- the effect of a cast on a value: `rnd t` is the conversion into dtype `t`, `ddt` the raster's dtype; an
+    expression that was not understood is the unknown function `rnd "?"` -/
+def Cast.apply {β : Type} (rnd : String → β → β) (ddt : String) : Cast → β → β
+  | .none, x => x
+  | .dtype t, x => rnd t x
+  | .dataDtype, x => rnd ddt x
+  | .other _, x => rnd "?" x
+
+/-- one cell of `_run_numpy_bin(data, bins, new_values)`: the casts found in the source, then `_cpu_bin` -/
+def runNumpyBin (sh : Shape) (c : BinCasts) (rnd : String → Ext α → Ext α) (ddt : String)
+    (bins newv : List (Ext α)) (v : Ext α) : Ext α :=
+  cellS sh (bins.map (c.bins.apply rnd ddt)) (newv.map (c.newValues.apply rnd ddt)) (c.data.apply rnd ddt v)
 
 /-- `np.unique` on a list without NaN: ascending, duplicates dropped (insertion) -/
 def insertU (x : α) : List α → List α
